@@ -162,9 +162,18 @@ def history_oracle(case: dict):
             (tmp / d).mkdir(parents=True, exist_ok=True)
         materialise(case, tmp)
         idx = {os.path.normpath(f["rel"]): i for i, f in enumerate(files)}
+        files = copy.deepcopy(files)
         for step, op in enumerate(case["history"]):
             if op[0] == "reset":
                 native.set_counter(-1)
+                continue
+            if op[0] == "edit":
+                # the content of one file changes on disk between two reads (same path, same size class): the next read must
+                # see the new content, whatever was read before
+                f = files[op[1]]
+                f["content"][f"only{op[1]}"] = op[2]
+                f["content"]["edited"] = op[2]
+                (tmp / f["rel"]).write_text(render(f))
                 continue
             f = files[op[1]]
             path = tmp / f["rel"]
@@ -372,8 +381,10 @@ def run(ctx):
                 h.append(("read", rng.randrange(len(files))))
             elif m < 0.65:
                 h.append(("read_nocomments", rng.randrange(len(files))))
-            elif m < 0.85:
+            elif m < 0.75:
                 h.append(("reset",))
+            elif m < 0.85:
+                h.append(("edit", rng.randrange(len(files)), rng.randrange(100, 999)))
             else:
                 h.append(("load", rng.randrange(len(files))))
         h.append(("read", 0))
